@@ -126,7 +126,7 @@ Proof.
   intros tok err w. unfold event_done.
   destruct (nth_error (evs w) tok) as [e|]; [|split; auto].
   destruct (e_waiting e =? 0); [|split; auto].
-  destruct (e_alert e); destruct err; split; auto.
+  destruct (e_alert e); destruct (err || e_errors e); split; auto.
 Qed.
 
 Lemma run_steps_quiet : forall sts tok hi k w,
@@ -681,7 +681,7 @@ Proof.
   - apply (IC_reg_gen _ _ p); [|reflexivity|reflexivity]. apply IC_mod_evt. assumption.
   - apply IC_install. assumption.
   - apply (IC_reg_gen _ _ p); [|reflexivity|reflexivity]. apply IC_mod_evt. assumption.
-  - apply IC_mod_evt. assumption.
+  - apply IC_event_done. apply IC_mod_evt. assumption.
 Qed.
 
 Lemma unreg_task_ths : forall t w, ths (unreg_task t w) = ths w. Proof. reflexivity. Qed.
@@ -702,7 +702,7 @@ Proof.
       destruct (t_parent t).
       * apply (IC_reg_gen _ _ n); [assumption|reflexivity|reflexivity].
       * apply IC_event_done. assumption.
-    + apply IC_mod_evt. apply (IC_unreg_gen _ _ g); assumption.
+    + apply IC_event_done. apply IC_mod_evt. apply (IC_unreg_gen _ _ g); assumption.
   - (* the wait generator, registered by _on_done *)
     destruct Tok as [st [Hs [Ph Tq]]]. rewrite Hs.
     pose proof (C sid st Hs) as [O1 O2 O3 O4 O5 O6 O7 O8].
@@ -772,7 +772,7 @@ Proof.
   intros tev p how w u H. unfold continue_parent.
   pose proof (quiet_tasks _ (gen_resume_quiet p how) w) as T. cbv beta in T.
   destruct (gen_resume p how w) as [w1 r]. simpl in T. rewrite <- T in H.
-  destruct r; try (apply In_reg_task; exact H); [rewrite install_tasks|]; exact H.
+  destruct r; try (apply In_reg_task; exact H); [rewrite install_tasks|rewrite (quiet_tasks _ (event_done_quiet _ _))]; exact H.
 Qed.
 
 Lemma ptask_keeps : forall t u w, In u (tasks w) -> u <> t ->
@@ -790,7 +790,7 @@ Proof.
     + assert (X : In u (tasks (unreg_task t (mod_evt (t_ev t) (add_wait (-1)) w1)))) by (simpl; apply In_unreg; auto).
       destruct (t_parent t); [apply In_reg_task; exact X|].
       rewrite (quiet_tasks _ (event_done_quiet _ _)). exact X.
-    + simpl. apply In_unreg. auto.
+    + rewrite (quiet_tasks _ (event_done_quiet _ _)). simpl. apply In_unreg. auto.
   - destruct (nth_error (wsts w) sid) as [st|]; [|exact H].
     destruct (has_th (THDone sid) w).
     + destruct (match s_event st with Some e => Some e | None => s_callval st end) as [e|]; [|exact H].
@@ -1050,18 +1050,13 @@ Qed.
 
 (* ------------------------------------------------------------------ witnesses *)
 
-(* open finding: the callee's generator handler raises after its first yield *)
-Definition prog_genraise : program :=
-  [ [HGen true [SCall 1%nat (-1); SYield (Some 7)]]; [HGen true [SYield (Some 9); SRaise]] ].
-
-Lemma genraise_residue :
-  let w := run prog_genraise false [] [(O, O)] 12 in
-  tasks w = [] /\ queue w = [] /\ ths w = [THDone O] /\ bad w = false /\
-  exists st, nth_error (wsts w) O = Some st /\ s_resumes st = O.
-Proof. vm_compute. repeat split. eexists. split; reflexivity. Qed.
-
-(* non-vacuity: a call that returns, and a call that times out *)
+(* non-vacuity: a call that returns, a call that times out, a callee whose generator handler raises after its
+   first yield (the caller is resumed with the error), and a handler that raises right after being resumed *)
 Definition prog_ok : program :=
   [ [HGen true [SCall 1%nat (-1); SYield (Some 7)]]; [HPlain (Some 5) false; HGen true [SYield (Some 9)]] ].
 Definition prog_tmo : program :=
   [ [HGen true [SCall 1%nat 1; SYield (Some 7)]]; [HGen true [SYield None; SYield None; SYield None; SYield None]] ].
+Definition prog_genraise : program :=
+  [ [HGen true [SCall 1%nat (-1); SYield (Some 7)]]; [HGen true [SYield (Some 9); SRaise]] ].
+Definition prog_raise_resumed : program :=
+  [ [HGen true [SCall 1%nat (-1); SYield (Some 7)]]; [HGen true [SCall 2%nat (-1); SRaise]]; [HPlain (Some 5) false] ].
